@@ -250,6 +250,7 @@ def main(argv=None):
                     choices=["quick", "thorough"])
     ap.add_argument("--replay", default=None)
     ap.add_argument("--quiet", action="store_true")
+    ap.add_argument("--groups", action="store_true", help="print every violation group")
     ap.add_argument("--no-confirm", action="store_true",
                     help="skip fresh-interpreter confirmation of violations (debugging)")
     args = ap.parse_args(argv)
@@ -283,6 +284,11 @@ def main(argv=None):
                 known_hits[e["key"]] = (e, known_hits[e["key"]][1] + 1)
             else:
                 new_groups.append((key, recs))
+        if args.groups:
+            for key, recs in new_groups:
+                r = recs[0]
+                print("GROUP", key, "| cfg:", canon(r["config"])[:300], "| obs:",
+                      canon(r["observed"])[:120], "| exp:", canon(r["expected"])[:120])
         reported = []
         for key, recs in new_groups[:40]:
             path = write_replay(prop, seed, recs[0])
